@@ -15,7 +15,7 @@ try:
     if s.count(old) < 1:
         print("MUTATION-NOT-APPLICABLE: pattern not found"); sys.exit(3)
     open(p, "w").write(s.replace(old, new, 1))
-    env = dict(os.environ, VERIF_REPO=d)
+    env = dict(os.environ, VERIF_REPO=d, VERIF_OUT=d + "/out")
     r = subprocess.run(["./check", prop, "--tier", tier], cwd="/verif", env=env, capture_output=True, text=True)
     out = (r.stdout + r.stderr).strip().splitlines()
     print("\n".join(out[-8:]))
